@@ -200,6 +200,14 @@ impl Lexicon {
     }
 }
 
+#[cfg(vibrato_verif)]
+impl Lexicon {
+    /// Verification hook: number of stored words.
+    pub fn verif_len(&self) -> usize {
+        self.params.len()
+    }
+}
+
 #[derive(Eq, PartialEq, Debug)]
 pub struct LexMatch {
     pub word_idx: WordIdx,
